@@ -417,3 +417,20 @@ func DevN(def int) int {
 	}
 	return def
 }
+
+// GeoCase is the case line shared by C19 / C20 / C23: laid-out geometry of every board.
+func GeoCase(res *Result) M {
+	boards := []any{}
+	for _, b := range res.Boards {
+		m := M{"path": b.Path, "layout": b.Layout}
+		if b.Geo != nil {
+			m["geo"] = b.Geo
+		}
+		boards = append(boards, m)
+	}
+	c := M{"k": "geo", "in": M{"src": res.Src, "engine": res.Engine}, "out": M{"compile": res.Compile, "boards": boards}}
+	if res.Compile != "ok" {
+		c["triv"] = true
+	}
+	return c
+}
